@@ -17,7 +17,7 @@ import (
 // C12 — ECDSA key blinding is consistent, invertible, commutative and context-bound.
 type c12 struct{ base }
 
-func init() { core.Register(c12{base{"C12", "exploration", 360, 10000}}) }
+func init() { core.Register(c12{base{"C12", "exploration", 800, 20000}}) }
 
 func (c12) Describe() core.Description {
 	return core.Description{
